@@ -4,7 +4,7 @@
 //
 //	totality+purity  every enumerated / corpus query x parameter-symbol collisions x parameter-map variants is translated
 //	                 under recover with a structural fingerprint of (AST, parameter map) before and after
-//	determinism      every query is translated three times (fresh parses); the 40 shortest structurally distinct
+//	determinism      every query is translated eight times; the 40 shortest structurally distinct
 //	                 queries in all ordered pairs against results from fresh processes, and 20 repetitions each
 //	schedules        engine E1: 2-3 concurrent Translate calls on one kind mapper whose methods are scheduling points,
 //	                 all interleavings, each result compared with the sequential result
